@@ -1372,6 +1372,19 @@ def within(root, name):
     return name == root or root == "/" or name.startswith(root.rstrip("/") + "/")
 
 
+def root_of(h):
+    """Current path of the local root of a handle (the owner may have moved it meanwhile)."""
+    if h.get("root") is None:
+        return None
+    obj = h.get("root_obj")
+    if obj is not None:
+        try:
+            return obj.name
+        except Exception:
+            pass
+    return h["root"]
+
+
 def content_tokens(w):
     dump, _ = V.dump_tree(w.ref)
     tokens = set()
@@ -1391,7 +1404,7 @@ def closure_check(w, dv, h, tokens):
     fl = flags_of(node)
     if not fl:
         return
-    root = h["root"]
+    root = root_of(h)
     results = []
 
     def add(prim, fn):
@@ -1484,7 +1497,7 @@ def op_grant(w, op):
                 node = w.MC(dv.raw).restrict(**flags)
             else:
                 node = dv.mc[p].restrict(**flags)
-            a["handles"].setdefault(dv.kind, []).append({"node": node, "flags": set(op["flags"]), "root": p if "local_only" in op["flags"] else None, "path": p})
+            a["handles"].setdefault(dv.kind, []).append({"node": node, "flags": set(op["flags"]), "root": p if "local_only" in op["flags"] else None, "root_obj": node if "local_only" in op["flags"] else None, "path": p})
         except Exception:
             ok = False
             a["handles"].setdefault(dv.kind, []).append(None)
@@ -1523,7 +1536,8 @@ def op_nav(w, op):
         node = h["node"]
         src_flags = flags_of(node)
         res = None
-        root = h["root"]
+        root = root_of(h)
+        root_obj = h.get("root_obj")
         try:
             if prim in ("getitem", "get", "child", "values", "items", "iter", "visititems", "require_group_existing"):
                 names = sorted(node.keys())
@@ -1563,6 +1577,7 @@ def op_nav(w, op):
                     res = res.restrict(**{f: True for f in fl})
                     if "local_only" in fl and root is None:
                         root = res.name
+                        root_obj = res
             elif prim == "restrict_self":
                 # restrict the very wrapper object that was (possibly) navigated from before
                 fl = FLAG_SETS[arg % len(FLAG_SETS)]
@@ -1570,6 +1585,7 @@ def op_nav(w, op):
                 h["flags"] = flags_of(node)
                 if "local_only" in fl and h["root"] is None:
                     h["root"] = node.name
+                    h["root_obj"] = node
                 res = None
             elif prim == "root_abs":
                 res = node["/"]
@@ -1593,7 +1609,7 @@ def op_nav(w, op):
             raise Violation("C15", "restriction-dropped", f"[{dv.kind}] node {res.name} obtained via {prim} from {node.name} has flags {sorted(got)}, source had {sorted(src_flags)}", shape=prim)
         if root is not None and not within(root, res.name):
             raise Violation("C15", "local-escape", f"[{dv.kind}] {prim} from local_only node (local root {root}) yielded {res.name}", shape=prim)
-        a["handles"][dv.kind].append({"node": res, "flags": got, "root": root, "path": res.name})
+        a["handles"][dv.kind].append({"node": res, "flags": got, "root": root, "root_obj": root_obj, "path": res.name})
     # keep handle lists bounded
     a = w.actors.get(op["actor"])
     if a:
@@ -1837,13 +1853,13 @@ def _op_attempt(w, op):
             l = leaks(w, res, tokens)
             if l:
                 raise Violation("C15", "skel-only-leak", f"[{dv.kind}] {kind} through a skel_only node ({node.name}) returned {l}", shape=kind)
-        if group == "U" and h["root"] is not None and not raised and res is not None:
+        if group == "U" and root_of(h) is not None and not raised and res is not None:
             items = res if isinstance(res, list) else [res]
             for x in items:
                 if is_raw_node(w, x):
                     raise Violation("C15", "unwrapped-node", f"[{dv.kind}] {kind} returned an unwrapped node")
-                if is_node(x) and not within(h["root"], x.name):
-                    raise Violation("C15", "local-escape", f"[{dv.kind}] {kind} from local_only node {node.name} (local root {h['root']}) yielded {x.name}", shape=kind)
+                if is_node(x) and not within(root_of(h), x.name):
+                    raise Violation("C15", "local-escape", f"[{dv.kind}] {kind} from local_only node {node.name} (local root {root_of(h)}) yielded {x.name}", shape=kind)
                 if isinstance(x, str):
                     raise Violation("C15", "local-escape", f"[{dv.kind}] {kind} from local_only node {node.name}: {x}", shape=kind)
         if group == "U" and not raised and res is not None:
